@@ -17,6 +17,27 @@ func genPfx(rt *rapid.T, ipv6, addPath bool) wire.Pfx {
 	}
 	bits := pick(rt, "bits", 0, 1, 7, 8, 9, 16, 24, max-1, max, rapid.IntRange(0, max).Draw(rt, "bitsr"))
 	p := wire.Pfx{Bits: bits, Addr: genBytesN(rt, "addr", (bits+7)/8)}
+	if rapid.IntRange(0, 3).Draw(rt, "special") == 0 {
+		// addresses that address libraries treat specially: IPv4-mapped, all
+		// zeros / ones, loopback, link-local, multicast
+		var full []byte
+		if ipv6 {
+			full = [][]byte{
+				{0, 0, 0, 0, 0, 0, 0, 0, 0, 0, 0xff, 0xff, 192, 0, 2, 1},
+				{0, 0, 0, 0, 0, 0, 0, 0, 0, 0, 0xff, 0xff, 0, 0, 0, 0},
+				{0, 0, 0, 0, 0, 0, 0, 0, 0, 0, 0xff, 0xff, 255, 255, 255, 255},
+				make([]byte, 16),
+				{0, 0, 0, 0, 0, 0, 0, 0, 0, 0, 0, 0, 0, 0, 0, 1},
+				{0xff, 0xff, 0xff, 0xff, 0xff, 0xff, 0xff, 0xff, 0xff, 0xff, 0xff, 0xff, 0xff, 0xff, 0xff, 0xff},
+				{0xfe, 0x80, 0, 0, 0, 0, 0, 0, 0, 0, 0, 0, 0, 0, 0, 1},
+				{0xff, 0x02, 0, 0, 0, 0, 0, 0, 0, 0, 0, 0, 0, 0, 0, 1},
+				{0, 0x64, 0xff, 0x9b, 0, 0, 0, 0, 0, 0, 0, 0, 192, 0, 2, 1},
+			}[rapid.IntRange(0, 8).Draw(rt, "special6")]
+		} else {
+			full = [][]byte{{0, 0, 0, 0}, {255, 255, 255, 255}, {127, 0, 0, 1}, {224, 0, 0, 1}, {169, 254, 0, 1}, {240, 0, 0, 0}}[rapid.IntRange(0, 5).Draw(rt, "special4")]
+		}
+		p.Addr = append([]byte{}, full[:(bits+7)/8]...)
+	}
 	if addPath {
 		p.ID = pick[uint32](rt, "pid", 0, 1, 0xffffffff, rapid.Uint32().Draw(rt, "pidr"))
 	}
